@@ -709,8 +709,8 @@ func c18funcID(n *c18node) string {
 }
 
 // c18spec computes "x equals a" by Go's rules on the two TERMS' values: == on scalars, identity on funcs,
-// reflect.DeepEqual on composites, pointers/interfaces: nil = nil, else by pointee (a pointee that is itself a pointer or an
-// interface is a composite).  flags: N = a NaN is compared at a scalar position, Z = +0 against -0, C = two closures of one
+// reflect.DeepEqual on composites, pointers/interfaces: nil = nil, else the pointees are compared (a pointee that is itself a
+// pointer or an interface is compared as a composite, by reflect.DeepEqual).  flags: N = a NaN is compared at a scalar position, Z = +0 against -0, C = two closures of one
 // function literal with different captured state, M = a named numeric type with a fmt method at a scalar position.
 func c18spec(x, a *c18node, xv, av reflect.Value, depth int, flags map[byte]bool) bool {
 	if xv.Type() != av.Type() {
@@ -757,8 +757,13 @@ func c18spec(x, a *c18node, xv, av reflect.Value, depth int, flags map[byte]bool
 			return xv.IsNil() && av.IsNil()
 		}
 		if depth == 0 {
+			// "by pointee": the pointees are compared, never the addresses
 			xe, ae := xv.Elem(), av.Elem()
-			if xe.Kind() != reflect.Ptr && xe.Kind() != reflect.Interface && len(x.kids) == 1 && len(a.kids) == 1 {
+			switch xe.Kind() {
+			case reflect.Ptr, reflect.Interface, reflect.Struct, reflect.Array, reflect.Slice, reflect.Map:
+				return reflect.DeepEqual(xe.Interface(), ae.Interface())
+			}
+			if len(x.kids) == 1 && len(a.kids) == 1 {
 				return c18spec(x.kids[0], a.kids[0], xe, ae, 1, flags)
 			}
 		}
@@ -868,7 +873,6 @@ func c18eqOracle(op *c18op, h c18heap, ins [][]reflect.Value) string {
 					xe, ae := xin.Elem(), ain.Elem()
 					if xe.Kind() == reflect.Ptr {
 						spec = reflect.DeepEqual(xe.Interface(), ae.Interface())
-						c18scan(xe, ae, flags)
 					} else {
 						spec = c18spec(xn, an, xe, ae, 1, flags)
 					}
@@ -906,18 +910,6 @@ func c18eqOracle(op *c18op, h c18heap, ins [][]reflect.Value) string {
 		parts = append(parts, s)
 	}
 	return strings.Join(parts, ",")
-}
-
-// c18scan flags NaN / signed-zero comparisons below a pointer held in an interface (compared by DeepEqual there).
-func c18scan(x, a reflect.Value, flags map[byte]bool) {
-	if x.Kind() == reflect.Ptr && !x.IsNil() && !a.IsNil() {
-		x, a = x.Elem(), a.Elem()
-	}
-	if x.Kind() == reflect.Float32 || x.Kind() == reflect.Float64 {
-		if x.Float() != x.Float() || a.Float() != a.Float() {
-			flags['N'] = true
-		}
-	}
 }
 
 // c18union: per input, the union over the items of In of the conjunction of its components, every plain component
